@@ -310,6 +310,20 @@ func (q *query) run() {
 			q.terminate(pathCtx, cancelPath, LookupCancelled)
 		}
 
+		// Apply the updates that are already queued as well before deciding how
+		// to go on. Deciding on one of them alone can end the lookup with the
+		// answer or the failure of another peer still unread: a peer whose
+		// request has already failed would then be returned as if it had not.
+	drain:
+		for !q.terminated {
+			select {
+			case update := <-ch:
+				q.updateState(pathCtx, update)
+			default:
+				break drain
+			}
+		}
+
 		// calculate the maximum number of queries we could be spawning.
 		// Note: NumWaiting will be updated in spawnQuery
 		maxNumQueriesToSpawn := alpha - q.queryPeers.NumWaiting()
